@@ -38,15 +38,18 @@ structure BCrypto where
   walletId : String → Bytes           -- account id (bucket name) of the wallet the harness calls `w`
   nameOf : Bytes → Option String      -- … and back
 
+/-- the account row value putAccountInfo stores: serializeAccountRow(accountMASS, serializeHDAccountKey(pub, priv)) -/
+def acctRow (pub priv : Bytes) : Bytes :=
+  match serializeHDAccountKey pub priv with
+  | some raw => serializeAccountRow accountMASS raw
+  | none => []
+
 /-- the two record layouts a pair can have: `salt ‖ digest ‖ N ‖ r ‖ p` (snacl Marshal) when the second component is a
     digest, otherwise the account row `type ‖ len ‖ (len ‖ pub ‖ len ‖ priv)` -/
 def pairBytes (C : BCrypto) (b : Term) (ab bb : Bytes) : Bytes :=
   match b with
   | .hash _ => (marshal ⟨ab, bb, C.N, C.R, C.P⟩).getD []
-  | _ =>
-    match serializeHDAccountKey ab bb with
-    | some raw => serializeAccountRow accountMASS raw
-    | none => []
+  | _ => acctRow ab bb
 
 /-- concretisation of a term; `pv` = the public value its `pub` leaf stands for -/
 def bytesOf (C : BCrypto) (pv : Bytes) : Term → Bytes
@@ -152,43 +155,47 @@ def putPubKeys (branch : Nat) (enc : Nat → Bytes) : List Nat → Bucket → Ex
     | .ok pk' => putPubKeys branch enc is pk'
     | .error e => .error e
 
+/-- sequencing of tree writers (the first error ends the transaction) -/
+def seqE (x : Except Err Tree) (f : Tree → Except Err Tree) : Except Err Tree :=
+  match x with
+  | .ok t => f t
+  | .error e => .error e
+
 /-- one branch of createManagerKeyScope after the scan: `if hint != 0 { updateChildNum; GetOrCreateBucket(pub); put keys }` -/
 def scopeBranchB (t : Tree) (id : Bytes) (internal : Bool) (n : Nat) (enc : Nat → Bytes) : Except Err Tree :=
   if n = 0 then .ok t
   else
-    match onB t (.acct id) (fun b => updateChildNum b internal n) with
-    | .error e => .error e
-    | .ok t =>
-      onB t (.pub id) (putPubKeys (if internal then MW.Gen.Keystore.internalBranch else MW.Gen.Keystore.externalBranch) enc (List.range n))
+    seqE (onB t (.acct id) (fun b => updateChildNum b internal n)) fun t =>
+    onB t (.pub id) (putPubKeys (if internal then MW.Gen.Keystore.internalBranch else MW.Gen.Keystore.externalBranch) enc (List.range n))
 
 /-- createManagerKeyScope, the writes in source order (the duplicate-seed check first) -/
-def createScopeB (t : Tree) (i : AcctIn) : Except Err Tree := do
+def createScopeB (t : Tree) (i : AcctIn) : Except Err Tree :=
   if (bget (t .aid) i.id).isSome then .error .db else
-  let t ← onB t .aid (fun b => putAccountID b i.id)
-  let t ← onB t (.acct i.id) (fun b => putCoinType b i.coin)
-  let t ← onB t (.acct i.id) (fun b => putAccountInfo b i.account i.acctPubEnc i.acctPrivEnc)
-  let t ← onB t (.acct i.id) (fun b => putBranchPubKeys b i.inbEnc i.exbEnc)
-  let t ← onB t (.acct i.id) initBranchChildNum
-  let t ← scopeBranchB t i.id true i.nInt i.pkInt
+  seqE (onB t .aid (fun b => putAccountID b i.id)) fun t =>
+  seqE (onB t (.acct i.id) (fun b => putCoinType b i.coin)) fun t =>
+  seqE (onB t (.acct i.id) (fun b => putAccountInfo b i.account i.acctPubEnc i.acctPrivEnc)) fun t =>
+  seqE (onB t (.acct i.id) (fun b => putBranchPubKeys b i.inbEnc i.exbEnc)) fun t =>
+  seqE (onB t (.acct i.id) initBranchChildNum) fun t =>
+  seqE (scopeBranchB t i.id true i.nInt i.pkInt) fun t =>
   scopeBranchB t i.id false i.nExt i.pkExt
 
 /-- initAcctBucket / allocAddrMgrNamespace after createManagerKeyScope -/
-def initAcctBucketB (t : Tree) (i : AcctIn) : Except Err Tree := do
-  let t ← createScopeB t i
-  let t ← onB t (.acct i.id) (fun b => putVersion b i.version)
-  let t ← (if i.remark.isEmpty then .ok t else onB t (.acct i.id) (fun b => putRemark b i.remark))
-  let t ← onB t (.acct i.id) (fun b => putMasterKeyParams b (some i.pubParams) (some i.privParams))
-  let t ← onB t (.acct i.id) (fun b => putEntropy b i.entropyEnc)
+def initAcctBucketB (t : Tree) (i : AcctIn) : Except Err Tree :=
+  seqE (createScopeB t i) fun t =>
+  seqE (onB t (.acct i.id) (fun b => putVersion b i.version)) fun t =>
+  seqE (if i.remark.isEmpty then .ok t else onB t (.acct i.id) (fun b => putRemark b i.remark)) fun t =>
+  seqE (onB t (.acct i.id) (fun b => putMasterKeyParams b (some i.pubParams) (some i.privParams))) fun t =>
+  seqE (onB t (.acct i.id) (fun b => putEntropy b i.entropyEnc)) fun t =>
   onB t (.acct i.id) (fun b => putCryptoKeys b (some i.cPubEnc) (some i.cPrivEnc) (some i.cEntEnc))
 
 /-- nextAddresses + updateManagedAddress for one external address: updateChildNum(false, next+1), putEncryptedPubKey -/
-def newAddrB (t : Tree) (id : Bytes) (next : Nat) (pkEnc : Bytes) : Except Err Tree := do
-  let t ← onB t (.acct id) (fun b => updateChildNum b false (next + 1))
+def newAddrB (t : Tree) (id : Bytes) (next : Nat) (pkEnc : Bytes) : Except Err Tree :=
+  seqE (onB t (.acct id) (fun b => updateChildNum b false (next + 1))) fun t =>
   onB t (.pub id) (fun pk => putEncryptedPubKey pk MW.Gen.Keystore.externalBranch next pkEnc)
 
 /-- ChangePubPassphrase, one keystore: putMasterKeyParams(pubParams, nil), putCryptoKeys(cryptoKeyPubEnc, nil, nil) -/
-def chpubOneB (t : Tree) (id : Bytes) (pubParams cPubEnc : Bytes) : Except Err Tree := do
-  let t ← onB t (.acct id) (fun b => putMasterKeyParams b (some pubParams) none)
+def chpubOneB (t : Tree) (id : Bytes) (pubParams cPubEnc : Bytes) : Except Err Tree :=
+  seqE (onB t (.acct id) (fun b => putMasterKeyParams b (some pubParams) none)) fun t =>
   onB t (.acct id) (fun b => putCryptoKeys b (some cPubEnc) none none)
 
 /-- DeleteKeystore: Clear + DeleteBucket of the account bucket (with its sub-bucket), deleteAccountID -/
@@ -212,9 +219,9 @@ def acctInOf (C : BCrypto) (ρ : PubVal) (coin : Nat) (w e : String) (p : Pass) 
     nInt := nInt, nExt := nExt,
     pkInt := fun i => C.box kPubB (ρ (w, .pubk 1 i)), pkExt := fun i => C.box kPubB (ρ (w, .pubk 0 i)),
     version := 0, remark := [],
-    pubParams := bytesOf C [] mkPubParams, privParams := bytesOf C [] privParams,
+    pubParams := bytesOf C (ρ (w, .mpub)) mkPubParams, privParams := bytesOf C (ρ (w, .mpriv)) privParams,
     entropyEnc := C.box kEntB (C.atom (.entropy e)),
-    cPubEnc := C.box (bytesOf C [] mkPub) kPubB, cPrivEnc := C.box (bytesOf C [] mkPriv) kPrivB,
-    cEntEnc := C.box (bytesOf C [] mkPriv) kEntB }
+    cPubEnc := C.box (bytesOf C (ρ (w, .cpub)) mkPub) kPubB, cPrivEnc := C.box (bytesOf C (ρ (w, .cpriv)) mkPriv) kPrivB,
+    cEntEnc := C.box (bytesOf C (ρ (w, .cent)) mkPriv) kEntB }
 
 end MW.Model.KsBytes
